@@ -62,8 +62,11 @@ structure State where
   front : Front
   /-- the server's `timeout` (ticks), given to every Incomer -/
   T : Nat
-  /-- `store.stamp` -/
+  /-- `servant.store.stamp`: the clock of the TCP server, which every incomer's timer reads -/
   now : Nat := 0
+  /-- the HTTP server's own `.store.stamp` when it was handed a ready servant with another store;
+  no timer reads it -/
+  appNow : Nat := 0
   /-- connections waiting in the listen socket's accept queue -/
   pending : List Nat := []
   nextId : Nat := 0
@@ -138,7 +141,8 @@ def checkPersisted (c : Conn) (ver : HttpVer) (hasClose hasKeepAlive chunked has
     { c with persisted := persistRule c.persisted ver hasClose hasKeepAlive chunked hasLength }
 
 inductive Op
-  | tick (d : Nat)                 -- the store's stamp advances
+  | tick (d : Nat)                 -- the servant's store stamp advances
+  | tickApp (d : Nat)              -- the HTTP server's own store advances (a different store)
   | arrive                         -- environment: a new peer connects
   | serviceConnects
   | rx (id n : Nat)                -- `ix.serviceReceives()` with n bytes ready (0 = would block)
@@ -153,6 +157,7 @@ inductive Op
 
 def step (s : State) : Op → State
   | .tick d => { s with now := s.now + d }
+  | .tickApp d => { s with appNow := s.appNow + d }      -- `ix.timer.expired` reads the incomer's store
   | .arrive => { s with pending := s.pending ++ [s.nextId], nextId := s.nextId + 1 }
   | .serviceConnects => serviceConnects s
   | .rx id n =>
